@@ -116,6 +116,32 @@ int gv_allnum;   /* ghost: every diagonal element the scaling pass read is a num
   __CPROVER_ensures(CVP_INBAND(self, r, s) ==> (gv_exc == 0 && 0 <= CVP_ELEM(self, r, s) &&                \
                     CVP_ELEM(self, r, s) < self->base.mem.sz && __CPROVER_return_value == REP(self) + CVP_ELEM(self, r, s))) \
   __CPROVER_ensures(!CVP_INBAND(self, r, s) ==> gv_exc == GV_BadIndex)
+/* The same contracts APPLIED AS BODIES (stubs of callees for CovMat::solve and the Adj routines): the precondition is
+   asserted, and the value returned is the one the ensures clause determines uniquely.  dfcc's own contract replacement
+   returns a nondeterministic pointer constrained by an assumption; a dereference of it makes CBMC case-split over every
+   object of the program (measured on CovMat::solve: 42 byte-wise extractions, > 15 GB), and a write through it lets
+   symbolic execution run away.  WF(self) is the caller's own precondition and self is never assigned by the callers. */
+static inline const Float *CVP_row_c(const struct CovMat *self, Index row)
+{
+  __CPROVER_assert(1 <= row && row <= self->base.row_, "operator[]: row index in 1..dim (precondition of the accessor)");
+  return REP(self) + TAB(row);
+}
+static inline Float CVP_at_c(const struct CovMat *self, Index r, Index s)
+{
+  __CPROVER_assert(1 <= r && r <= self->base.row_ && 1 <= s && s <= self->base.row_,
+                   "operator() const: indices in 1..dim (precondition of the accessor)");
+  if (!CVP_INBAND(self, r, s)) return 0;
+  return REP(self)[CVP_ELEM(self, r, s)];
+}
+static inline Float *CVP_at(struct CovMat *self, Index r, Index s)
+{
+  __CPROVER_assert(1 <= r && r <= self->base.row_ && 1 <= s && s <= self->base.row_,
+                   "operator(): indices in 1..dim (precondition of the accessor)");
+  __CPROVER_assert(gv_exc == 0, "operator(): no exception in flight");
+  if (!CVP_INBAND(self, r, s)) { gv_exc = GV_BadIndex; return NULL; }
+  return REP(self) + CVP_ELEM(self, r, s);
+}
+
 /* lemma instances the accessor proofs use (entry blocks) */
 #define CVP_ROW_PROOF CVP_USE_OPROW(self->base.row_, self->band_, self->band_1, self->dim_b, row);
 #define CVP_AT_PROOF  CVP_USE_STEP(self->base.row_, self->band_, CVP_LO(r, s));
@@ -129,6 +155,28 @@ int gv_allnum;   /* ghost: every diagonal element the scaling pass read is a num
 #define CVP_RHS_OK(A, v)                                                                                   \
   (WF_MEM(&(v)->mem) && (v)->mem.sz <= CVP_MAXD && !SAME((v), (A)) && !SAME((v)->mem.rep, (A)) && !SAME((v)->mem.rep, (v)) && \
    !SAME((v)->mem.rep, REP(A)) && !SAME(REP(A), (v)))
+
+/* ---- SymMat(n): lower triangle by rows; TRI(i) = offset of element (i,1) ------------------------------------------- */
+#define TRI(i) ((long)cvp_tri[i])
+#define CVP_WF_SYM(A)                                                                                      \
+  (0 <= (A)->dim_ && (A)->dim_ <= CVP_MAXD && (A)->base.row_ == (A)->dim_ && (A)->base.col_ == (A)->dim_ && \
+   (A)->base.mem.sz == ((A)->dim_ == 0 ? 0 : TRI((A)->dim_ + 1)) && 0 <= (A)->base.mem.sz &&               \
+   (A)->base.mem.sz <= CVP_MAXSZ && __CPROVER_rw_ok(REP(A), (A)->base.mem.sz * sizeof(Float)))
+Index gv_zeros;  /* ghost: pivots zeroed by the rank test of SymMat::cholDec */
+Index gv_wi;     /* ghost: row whose pivot passed the rank test last (witness of BadRank) */
+Float gv_wx;     /* ghost: that pivot */
+static void mk_sym(struct SymMat *A)
+{
+  Index d;
+  __CPROVER_assume(0 <= d && d <= CVP_MAXD);
+  A->dim_ = A->base.row_ = A->base.col_ = d;
+  Index sz = (d == 0) ? 0 : cvp_tri[d + 1];
+  __CPROVER_assume(0 <= sz && sz <= CVP_MAXSZ);          /* cvp_lemma_tri_end */
+  A->base.mem.sz = sz;
+  Float *m = malloc((size_t)sz * sizeof(Float));         /* local first, never NULL: see mk_cov */
+  __CPROVER_assume(m != NULL);
+  A->base.mem.rep = m;
+}
 
 /* harness helper: an arbitrary CovMat(d,b) with arbitrary contents */
 static void mk_cov(struct CovMat *A)
@@ -382,11 +430,11 @@ __CPROVER_assert(gv_cols == k - n + 1, "every element (row+n, row+n .. row+k) in
    (b) C15: "non-conforming operands raise an exception instead of reading outside the operands":
        rhs.dim() != dim()  ==>  BadRank;   rhs.dim() == dim()  ==>  no exception.
    (c) decreases clauses on the five loops.
-   The accessors are replaced by their contracts (table form, proved in covmat_row*_tab / covmat_at*_tab; Vec_at as in
-   unit matvec_index).                                                                                             */
+   operator[] / operator() are the stubs CVP_row_c / CVP_at_c (their table contracts applied as bodies, proved against
+   the real accessors in covmat_row*_tab / covmat_at*_tab); Vec::operator() is the extracted body, inlined.                                                                                           */
 //@ contract CovMat_solve
 __CPROVER_requires(CVP_WF_COV(self) && CVP_RHS_OK(self, rhs) && gv_exc == 0)
-__CPROVER_assigns(gv_exc; rhs->mem.sz > 0: __CPROVER_object_whole(rhs->mem.rep))
+__CPROVER_assigns(gv_exc, __CPROVER_object_whole(rhs->mem.rep))
 __CPROVER_ensures(rhs->mem.sz != self->base.row_ ==> gv_exc == GV_BadRank)
 __CPROVER_ensures(rhs->mem.sz == self->base.row_ ==> gv_exc == 0)
 //@ entry CovMat_solve
@@ -419,6 +467,60 @@ __CPROVER_loop_invariant(i + 1 <= k && k <= GV_MIN(i + self->band_, gv_dim) + 1 
 __CPROVER_decreases((long)GV_MIN(i + self->band_, gv_dim) + 1 - k)
 //@ head CovMat_solve 5
 GV_ANCHOR(m, REP(self) + (TAB(i) + (k - i)));
+//@ end
+
+/* ------------------------------------------------------------------------------------------------------------------
+   SymMat::cholDec  (in-situ rank-revealing Cholesky A = L L' of the packed lower triangle; used by AdjCholDec)
+
+   (a) every access a[k] (a = begin() - 1, 1-based) stays inside the packed buffer of n(n+1)/2 elements; nothing but the
+       buffer, idf_ and the exception state is assigned.
+   (b) the only exception is BadRank, raised iff a pivot x passes the rank test x > diag*tol and is negative (witness row
+       gv_wi); on normal return idf_ is the number of pivots the rank test zeroed (ghost counter gv_zeros, 0 <= idf_ <= n)
+       and EVERY diagonal element (ghost index gv_k0) is a number >= 0: an exact zero where the rank test failed, the
+       square root of a non-negative pivot otherwise.
+   (c) decreases clauses on the three loops.
+   Index bookkeeping of the code: ip = TRI(i) + j - 1 (element (i,j) is a[ip+1]), ir = TRI(j) + (k - iq) walks row j.   */
+//@ contract SymMat_cholDec
+__CPROVER_requires(CVP_WF_SYM(self) && gv_exc == 0)
+__CPROVER_assigns(gv_exc, gv_zeros, gv_wi, gv_wx, self->idf_, __CPROVER_object_whole(REP(self)))
+__CPROVER_ensures(gv_exc == 0 || gv_exc == GV_BadRank)
+__CPROVER_ensures(gv_exc == GV_BadRank ==> (1 <= gv_wi && gv_wi <= self->dim_ && gv_wx < 0))
+__CPROVER_ensures(gv_exc == 0 ==> (self->idf_ == gv_zeros && 0 <= self->idf_ && self->idf_ <= self->dim_))
+__CPROVER_ensures((gv_exc == 0 && 1 <= gv_k0 && gv_k0 <= self->dim_) ==> REP(self)[TRI(gv_k0 + 1) - 1] >= 0)
+//@ entry SymMat_cholDec
+GV_CANARY("SymMat_cholDec entry");
+gv_zeros = 0;
+//@ pre SymMat_cholDec 1
+CVP_USE_TRI_FIRST(n);
+if (n >= 1) CVP_USE_TRI_END(n);
+//@ loop SymMat_cholDec 1
+__CPROVER_assigns(i, j, k, ip, iq, ir, x, diag, gv_exc, gv_zeros, gv_wi, gv_wx, self->idf_, __CPROVER_object_whole(REP(self)))
+__CPROVER_loop_invariant(1 <= i && i <= n + 1 && ip == TRI(i) && gv_exc == 0 && self->idf_ == gv_zeros &&
+                         0 <= gv_zeros && gv_zeros <= i - 1 && 0 <= TRI(i) && TRI(i) <= TRI(n + 1) &&
+                         ((1 <= gv_k0 && gv_k0 < i) ==>
+                          (1 <= TRI(gv_k0 + 1) && TRI(gv_k0 + 1) <= TRI(i) && REP(self)[TRI(gv_k0 + 1) - 1] >= 0)))
+__CPROVER_decreases((long)n + 1 - i)
+//@ head SymMat_cholDec 1
+CVP_USE_TRI_STEP(n, i);
+//@ loop SymMat_cholDec 2
+__CPROVER_assigns(j, k, ip, ir, x, diag, gv_exc, gv_zeros, gv_wi, gv_wx, self->idf_, __CPROVER_object_whole(REP(self)))
+__CPROVER_loop_invariant(1 <= j && j <= i + 1 && ip == TRI(i) + (j - 1) && ir == TRI(j) && gv_exc == 0 &&
+                         self->idf_ == gv_zeros && 0 <= gv_zeros && gv_zeros <= (i - 1) + (j > i ? 1 : 0) &&
+                         ((1 <= gv_k0 && gv_k0 < i) ==> REP(self)[TRI(gv_k0 + 1) - 1] >= 0) &&
+                         ((gv_k0 == i && j > i) ==> REP(self)[TRI(i + 1) - 1] >= 0))
+__CPROVER_decreases((long)i + 1 - j)
+//@ head SymMat_cholDec 2
+CVP_USE_TRI_STEP(n, j);
+if (j < i) CVP_USE_TRI_MONO(n, j + 1, i);
+//@ loop SymMat_cholDec 3
+__CPROVER_assigns(k, ir, x)
+__CPROVER_loop_invariant(iq <= k && k <= ip + 1 && ir == TRI(j) + (k - iq))
+__CPROVER_decreases((long)ip + 1 - k)
+//@ at SymMat_cholDec rank_zero
+gv_zeros = gv_zeros + 1;
+//@ at SymMat_cholDec rank_passed
+gv_wi = i;          /* placed in front of the statement `if (x < 0) throw ...` (inside the braces of the rank-test branch) */
+gv_wx = x;
 //@ end
 
 //@ harness
@@ -513,10 +615,27 @@ void h_covmat_solve(void)
   struct Vec x;
   mk_cov(&A);
   mk_vec(&x);
-  CVP_EXCL_CONFORMING(&A, &x);
+#if CVP_CONFORMING
+  __CPROVER_assume(x.mem.sz == A.base.row_);           /* check covmat_solve: conforming operands */
+#endif
+  CVP_EXCL_CONFORMING(&A, &x);                           /* check covmat_solve_anydim: empty unless the exclusion pass */
   gv_exc = 0;
   Index w_dim = A.base.row_, w_band = A.band_, w_rhsdim = x.mem.sz;
   CovMat_solve(&A, &x);
   GV_CANARY("h_covmat_solve end");
+}
+
+void h_symmat_cholDec(void)
+{
+  struct SymMat A;
+  mk_sym(&A);
+  Float tol;
+  A.tol_ = tol;
+  Index k0;
+  gv_k0 = k0;
+  gv_exc = 0;
+  Index w_dim = A.dim_;
+  SymMat_cholDec(&A);
+  GV_CANARY("h_symmat_cholDec end");
 }
 //@ end
